@@ -222,6 +222,27 @@ static int spec_candidate(void)
   return best;
 }
 
+/* states that the canonical API history constructs (used only to pick a REPLAYABLE counterexample after a refutation):
+ * expectations created oldest first, then `count` accepted calls to each, oldest first; small bounds */
+static _Bool spec_constructible(void)
+{
+  _Bool link[N][2]; _Bool called[N];
+  for (int i = 0; i < N; i++) { link[i][0] = in_K[i] >= 1; link[i][1] = in_K[i] >= 2; called[i] = 0; }
+  for (int i = N - 1; i >= 0; i--) {
+    if (in_where[i] == 2 || in_reported[i] || in_max[i] > 4) return 0;
+    if (in_cnt[i] > 0) {
+      for (int k = 0; k < 2; k++) if (k < in_K[i]) {
+        if (!link[i][k]) return 0;
+        for (int j = N - 1; j > i; j--) for (int kk = 0; kk < 2; kk++)
+          if (kk < in_K[j] && seq_of(j, kk) == seq_of(i, k)) { if (link[j][kk] && in_cnt[j] < in_min[j]) return 0; link[j][kk] = 0; }
+        if (in_cnt[i] == in_max[i]) link[i][k] = 0;
+      }
+    }
+  }
+  for (int i = 0; i < N; i++) for (int k = 0; k < 2; k++) if (k < in_K[i] && link[i][k] != in_linked[i][k]) return 0;
+  return 1;
+}
+
 /* ------------------------------------------------------------------ observation of the final state */
 static _Bool in_ring_cm(struct S_list_elem_call_matcher_base_int_int *sent, int i)
 {
